@@ -73,7 +73,7 @@ class JaggedArray:
                         )
                         offset += len(flattenedList)
                         flattenedArray.extend(flattenedList)
-            elif isinstance(arr, (int, float)):
+            elif isinstance(arr, (int, float, np.integer, np.floating)):
                 offsets.append(offset)
                 shapes.append((1,))
                 offset += 1
